@@ -10,6 +10,7 @@ from canopen import objectdictionary as odm
 
 from simcan import world
 from simcan.core import MS, SEC, US
+from canopen.sdo.exceptions import SdoError
 from simcan.models.pdo_device import StrictPdoDevice, PdoState
 from simcan.util import call, site
 
@@ -43,6 +44,29 @@ MAPPABLE = [  # (index, sub, dtype, bits)
     (0x6040, 0, odm.UNSIGNED16, 16), (0x6041, 0, odm.UNSIGNED16, 16), (0x6060, 0, odm.INTEGER8, 8),
 ]
 SOURCES = ("attrs", "device", "od", "load_configuration")
+
+
+class _LoseOne:
+    """Transport wrapper: the k-th frame the device sends to the fresh network is lost."""
+
+    def __init__(self, inner, k):
+        self.inner = inner
+        self.k = k
+        self.n = 0
+        self.fired = False
+        self.lat_lo, self.lat_hi = inner.lat_lo, inner.lat_hi
+
+    def latency(self):
+        return self.inner.latency()
+
+    def route(self, frame, dst):
+        if frame.src == "server" and dst.name == "fresh":
+            i = self.n
+            self.n += 1
+            if i == self.k:
+                self.fired = True
+                return []
+        return self.inner.route(frame, dst)
 
 
 def jobs(tier, seed):
@@ -362,6 +386,12 @@ def scenario(ctx):
     net2.add_node(node2)
     node2.sdo.RESPONSE_TIMEOUT = w.timeout
     how = ctx.choice(3, "readhow")
+    lose = None
+    if ctx.choice(6, "lose-one") == 1:
+        # fault configuration: ONE answer of the device is lost during the read-back.  The fresh node may then fail with an
+        # SDO error; if read() returns normally, what it read must still be what was saved
+        lose = _LoseOne(w.ch.transport, ctx.choice(40, "lose-at"))
+        w.ch.transport = lose
     if how == 0:
         _, exc = call(node2.pdo.read)
     else:
@@ -370,6 +400,13 @@ def scenario(ctx):
             _, exc = call(pmap(p, node2).read)
             if exc is not None:
                 break
+    if lose is not None:
+        w.ch.transport = lose.inner
+        if lose.fired:
+            ctx.fault("answer-lost-during-read-back")
+            if isinstance(exc, SdoError):
+                ctx.cover(("read-back-failed-after-lost-answer", type(exc).__name__))
+                return
     if exc is not None:
         ctx.violation("C09/read-back-raised/%s@%s" % (type(exc).__name__, site(exc)), "read() into a fresh node raised %r" % (exc,))
     for p in pdos:
